@@ -5,8 +5,16 @@
    RemovePeer + AddPeer of the same peer creates a NEW handler while goroutines and the timer
    of the old one may still be around.  One action per critical section:
      AddPeer / RemovePeer / Start / Stop           under ps.mu; Stop/RemovePeer stop handlers in two
-                                                   steps each: cancel()  (HCancel), then under ph.mu
-                                                   timer.Stop(); timer = nil  (HStopTimer)
+                                                   sub-steps each: cancel()  (HCancel) and, under ph.mu
+                                                   (lock .. unlock = one atomic step), timer.Stop();
+                                                   timer = nil  (HStopTimer).  The ORDER of the two is a
+                                                   parameter (StopOrders): "cancel-first" is what the
+                                                   properties need; with "timer-first" (clear the timer,
+                                                   unlock, cancel afterwards) a handler goroutine that runs
+                                                   between the two sub-steps sees a live context and a nil
+                                                   timer and arms a timer nobody stops (NoTimerAfterStop
+                                                   fails: MCPeeringStopOrder.cfg).  Handler goroutines
+                                                   interleave at every sub-step boundary.
      EnvConn / EnvDisc                             the network changes connectedness and calls the
                                                    notifee, which spawns  go stopIfConnected /
                                                    go startIfDisconnected  on the current handler
@@ -34,6 +42,7 @@ CONSTANTS Peers,      \* peer names
           MaxEnv,     \* bound on EnvConn + EnvDisc
           MaxFire,    \* bound on TimerFire
           MaxDialFail,\* bound on DialFail
+          StopOrders, \* subset of {"cancel-first", "timer-first"}: possible orders of the sub-steps of handler.stop()
           Devs
 
 H == 1..MaxH
@@ -45,7 +54,7 @@ VARIABLES
   state,      \* "init" | "running" | "stopped"
   registered, \* notifee registered with the network (Start .. StopNotify)
   api,        \* "none" | "stop" | "remove": a Stop()/RemovePeer() call is between call and return
-  tostop,     \* [H -> "no" | "cancel" | "timer"]  work left for the call in progress
+  tostop,     \* [H -> "no" | "both" | "cancel" | "timer"]  sub-steps of handler.stop() left for the call in progress
   cur,        \* [Peers -> 0..MaxH]  ps.peers
   nh,         \* handlers created
   hpeer,      \* [H -> Peers]
@@ -100,7 +109,7 @@ AddPeer(p) ==
 RemoveCall(p) ==
   /\ api = "none" /\ api' = "remove"
   /\ IF cur[p] = 0 THEN UNCHANGED <<tostop, cur>>
-     ELSE /\ tostop' = [tostop EXCEPT ![cur[p]] = "cancel"]
+     ELSE /\ tostop' = [tostop EXCEPT ![cur[p]] = "both"]
           /\ cur' = [cur EXCEPT ![p] = 0]
   /\ UNCHANGED <<state, registered, nh, hpeer, hvars, gvars>>
 
@@ -108,18 +117,21 @@ StopCall ==
   /\ api = "none" /\ api' = "stop"
   /\ registered' = FALSE                                         \* StopNotify comes first
   /\ tostop' = IF state = "stopped" THEN tostop
-               ELSE [h \in H |-> IF h \in CurHandlers THEN "cancel" ELSE "no"]
+               ELSE [h \in H |-> IF h \in CurHandlers THEN "both" ELSE "no"]
   /\ UNCHANGED <<state, cur, nh, hpeer, hvars, gvars>>
 
-\* handler.stop(), first half: ph.cancel()
-HCancel(h) == /\ tostop[h] = "cancel"
+\* handler.stop(), sub-step ph.cancel(): first ("cancel-first") or after the timer has been cleared
+HCancel(h) == /\ \/ tostop[h] = "both" /\ "cancel-first" \in StopOrders
+                 \/ tostop[h] = "cancel"
               /\ cancelled' = [cancelled EXCEPT ![h] = TRUE]
-              /\ tostop' = [tostop EXCEPT ![h] = "timer"]
+              /\ tostop' = [tostop EXCEPT ![h] = IF tostop[h] = "both" THEN "timer" ELSE "no"]
               /\ UNCHANGED <<state, registered, api, cur, nh, hpeer, timer, delay, connected, pend, gvars>>
-\* handler.stop(), second half, under ph.mu: stop and forget the timer
-HStopTimer(h) == /\ tostop[h] = "timer"
+\* handler.stop(), sub-step under ph.mu (lock; stop and forget the timer; unlock): after the cancel, or first
+\* ("timer-first")
+HStopTimer(h) == /\ \/ tostop[h] = "both" /\ "timer-first" \in StopOrders
+                    \/ tostop[h] = "timer"
                  /\ timer' = [timer EXCEPT ![h] = "none"]
-                 /\ tostop' = [tostop EXCEPT ![h] = "no"]
+                 /\ tostop' = [tostop EXCEPT ![h] = IF tostop[h] = "both" THEN "cancel" ELSE "no"]
                  /\ UNCHANGED <<state, registered, api, cur, nh, hpeer, cancelled, delay, connected, pend, gvars>>
 
 \* Stop()/RemovePeer() return: every handler they stopped is retired from now on
@@ -268,7 +280,7 @@ Spec == Init /\ [][Next]_vars
 
 (* ------------------------------------------------------------------ properties *)
 TypeOK == /\ state \in {"init", "running", "stopped"} /\ api \in {"none", "stop", "remove"}
-          /\ cur \in [Peers -> 0..MaxH] /\ nh \in 0..MaxH
+          /\ cur \in [Peers -> 0..MaxH] /\ nh \in 0..MaxH /\ tostop \in [H -> {"no", "both", "cancel", "timer"}]
           /\ timer \in [H -> {"none", "armed", "fired"}] /\ delay \in [H -> {"init", "grown"}]
           /\ pend \in [Kinds \X H -> 0..MaxPend]
 NoPending(h) == \A k \in Kinds : pend[<<k, h>>] = 0
